@@ -4,6 +4,7 @@ package main
 // (Of/OfMany/ToArray/Get*), C14 (Join/Getw/Slice). One event = one batch of calls on one input.
 
 import (
+	"sort"
 	"math/rand"
 
 	"github.com/openacid/low/bitmap"
@@ -12,7 +13,7 @@ import (
 func init() {
 	exec := map[string]func(in In, em *Emitter){
 		"masks": execMasks, "rank": execRank, "rankl": execRankL, "select": execSelect, "selectl": execSelectL, "scan": execScan,
-		"of": execOf, "ofmany": execOfMany, "toarray": execToArray, "join": execJoin, "joinbig": execJoinBig, "slice": execSlice,
+		"of": execOf, "ofmany": execOfMany, "toarray": execToArray, "join": execJoin, "joinbig": execJoinBig, "slice": execSlice, "slicebig": execSliceBig,
 		"bld": execBuilder,
 	}
 	trivBM := func(k string, in In) bool {
@@ -802,6 +803,40 @@ func execSlice(in In, em *Emitter) {
 	em.Calls(1)
 }
 
+// onesOfSparse is onesOf for huge, mostly empty bitmaps (zero words are skipped).
+func onesOfSparse(words []uint64) []int64 {
+	r := []int64{}
+	for i, w := range words {
+		if w == 0 {
+			continue
+		}
+		for b := 0; b < 64; b++ {
+			if w>>uint(b)&1 == 1 {
+				r = append(r, int64(i)*64+int64(b))
+			}
+		}
+	}
+	return r
+}
+
+// execSliceBig: Slice on a bitmap of up to 2^31 bits (the int32 limit of the package's bit positions), sparse,
+// with from/to near its end; same observation as "slice".
+func execSliceBig(in In, em *Emitter) {
+	o := J{}
+	from, to := in.I32("from"), in.I32("to")
+	abn := guard(func() {
+		ws := in.BM("bm")
+		r := bitmap.Slice(ws, from, to)
+		o["bm"] = J{"nw": len(r), "ones": onesOfSparse(r)}
+		o["inafter"] = J{"nw": len(ws), "ones": onesOfSparse(ws)}
+	})
+	if abn != "" {
+		o = J{}
+	}
+	em.Emit("slicebig", J{"in": in.m, "out": o, "abn": abn})
+	em.Calls(1)
+}
+
 // execJoinBig joins `count` values v_i = i % 65521 of width w (up to 2^31 bits in total: the int32 limit of the
 // package's bit positions) and reports the number of result words, Getw at sampled indexes and sampled words.
 func execJoinBig(in In, em *Emitter) {
@@ -841,6 +876,35 @@ func genC14(g *Gen) {
 					idxs = append(idxs, r.Int63n(count))
 				}
 				g.Case("joinbig", J{"w": w, "count": count, "idxs": idxs})
+			}
+		}
+		// Slice near the end of bitmaps of 2^31 and 2^30 (+-) bits: to + 63 and the like exceed int32 there
+		for _, nw := range []int64{1 << 25, 1<<25 - 1, 1 << 24, 1<<24 + 1} {
+			end := nw * 64
+			if end > 1<<31-1 {
+				end = 1<<31 - 1 // the largest int32 position
+			}
+			for c := 0; c < 6; c++ {
+				to := end - []int64{0, 0, 1, 62, 63, 64}[c]
+				if to == end && c == 1 {
+					to = end - int64(r.Intn(200))
+				}
+				from := to - int64(r.Intn(300))
+				if c%2 == 0 {
+					from = to - to%64 - 64*int64(r.Intn(3)) // word aligned
+				}
+				ones := map[int64]bool{0: true, 63: true, from: true, to - 1: true, nw*64 - 1: true, nw*64 - 64: true}
+				for k := 0; k < 40; k++ {
+					ones[from-70+int64(r.Intn(int(to-from)+140))] = true
+				}
+				var ol []int64
+				for p := range ones {
+					if p >= 0 && p < nw*64 && p <= 1<<31-1 {
+						ol = append(ol, p)
+					}
+				}
+				sort.Slice(ol, func(i, j int) bool { return ol[i] < ol[j] })
+				g.Case("slicebig", J{"bm": J{"nw": nw, "ones": ol}, "from": from, "to": to})
 			}
 		}
 	}
